@@ -341,6 +341,16 @@ pub fn run(ctx: &'static Ctx) -> (&'static str, Value, Vec<&'static str>) {
             );
             s4.evaluations += n;
             s4.count("short_read_shapes", n);
+            let n = crate::guard::two_actor_check(
+                ctx,
+                "decode_message_header",
+                &bytes,
+                32,
+                |r: &mut SplitReader| dm::decode_message_header(r).ok().map(|h| (h.segment_size, h.redundant_channel, h.message_type, h.sequence_number, h.date, h.time, h.segment_count, h.segment_number)),
+                |mode, k| json!({"op": "short_read", "plan": plan, "mode": mode, "read_call": k}),
+            );
+            s4.evaluations += n;
+            s4.count("two_actor_schedules", n);
         }
     }
     // history: accessor results must not depend on the header examined just before
